@@ -70,12 +70,14 @@ class C15(Check):
                   "the spec predicate (no crash, deterministic across compilations AND across two evaluations of one compiled expression, "
                   "parenthesisation-independent both for the minimal parentheses of the grammar's table (precedence_as_declared) and for the minimal "
                   "parentheses of the DOCUMENT's table (precedence_as_documented: a text that relies on the documented precedence/associativity "
-                  "means what its fully parenthesised form means — a concrete failing program when grammar and document drift apart), every literal the real lexer evaluated within 2^-50 of its documented exact value, the 30 `expression (result)` examples of the "
-                  "document's operator table evaluate to their documented results (reference_example_as_documented; `~true (false)` does not: F-C15g), "
+                  "means what its fully parenthesised form means — a concrete failing program when grammar and document drift apart), every literal the real lexer evaluated within 2^-50 of its documented exact value, the `expression (result)` examples of the "
+                  "document's operator table — read from doc/17 on every run (30 today), the expression's AST from a template whose printing must "
+                  "give back the document's text, the result from the document — evaluate to their documented results "
+                  "(reference_example_as_documented; proved for the model by reference_examples_hold_in_model; F-C15g `~true` repaired by 86ab6e0), "
                   "and the family clauses against the reference's answer) is evaluated on the implementation's own observations")
     level_note = ("Trusted: Lean kernel (+ propext, Classical.choice, Quot.sound), gen/c15_precedence.py (anchored regexes; lost anchor => tie broken), "
                   "harness/driver. Not proved, only exercised: memory safety/crash-freedom of the C++ (forked children; crashes found on the unchanged "
-                  "tree: F-C15a/d repaired by 09db53a/13754a5, F-C15f repaired by 1f98393, F-C15b/c known; documentation/code divergences known: F-C15e Array#join of Booleans, F-C15g `~true`), IEEE arithmetic (Float is opaque to the kernel; no theorem depends on it), parsing beyond the "
+                  "tree: F-C15a/d repaired by 09db53a/13754a5, F-C15f repaired by 1f98393, F-C15b/c known; documentation/code divergence known: F-C15e Array#join of Booleans; F-C15g `~true` repaired by 86ab6e0), IEEE arithmetic (Float is opaque to the kernel; no theorem depends on it), parsing beyond the "
                   "precedence table (covered by the two printings). Outside the modelled domain (reported as skipped_unmodelled, not compared): C++ "
                   "undefined conversions (static_cast<int> out of range, shifts >= 32), ToString of containers, natives called with arguments the "
                   "function wrapper would convert, Array#reduce callbacks that mutate the array being reduced, sort with a comparator, references, namespaces, "
@@ -111,7 +113,7 @@ class C15(Check):
         # round 4
         "reference_matches_document", "binary_operators_ordered_as_documented", "every_operator_documented_once",
         "array_equality_identity_and_length", "array_join_folds_with_separator", "operator_ne_negates_eq", "not_in_negates_in",
-        "array_minus_empty_array", "reference_examples_hold_in_model_partial", "reference_example_bitwise_not_counterexample",
+        "array_minus_empty_array", "reference_examples_hold_in_model",
     ]
 
     # ------------------------------------------------------------------ translator
@@ -287,9 +289,54 @@ class C15(Check):
                     break
         return " ".join(pre + self._emit(tree))
 
+    # ------------------------------------------------------------------ the document's own examples
+    def _doc_examples(self, harness):
+        """One program `[ expression, documented result ]` (family `docex`) per `expression (result)` example that the translator read from
+        the operator table of doc/17 ON THIS RUN.  The expression's AST comes from corpus/C15/reference_example_templates.tpl (hand-made
+        ASTs; the harness's printer must give back the document's text, else the tie is broken), the RESULT from the document."""
+        if not hasattr(self, "table"):
+            self.generate()
+        tpl = os.path.join(core.ROOT, "corpus", "C15", "reference_example_templates.tpl")
+        exprs = []
+        for l in open(tpl).read().splitlines():
+            toks = l.split()
+            if toks[:1] == ["P"] and toks[2:6] == ["blk", "1", "arr", "2"]:
+                _, nxt = self._parse(toks, 6)
+                exprs.append(toks[6:nxt])
+        f = self.work("docex_templates.ops")
+        with open(f, "w") as fh:
+            for i, e in enumerate(exprs):
+                fh.write("P t%d blk 1 %s\n" % (i, " ".join(e)))
+        rc, out = core.run([harness, "text", f], env=self._env())
+        norm = lambda s: re.sub(r"[\s()]", "", s)
+        texts = {}
+        for m in re.finditer(r"^--- P t(\d+) \(min\)\n(.*?)\n--- \(full\)", out, re.S | re.M):
+            texts[norm(m.group(2))] = exprs[int(m.group(1))]
+        lines = []
+        for n, (expr, result) in enumerate(self.table["examples"], 1):
+            ast = texts.get(norm(expr))
+            if ast is None:
+                raise core.TieBroken("translator:C15:doc-example-without-template", "doc/17 operator table example `%s (%s)` has no AST template in %s" % (expr, result, tpl))
+            if result in ("true", "false"):
+                r = ["b1" if result == "true" else "b0"]
+            elif result.startswith('"'):
+                r = ["s", result[1:-1].encode().hex() or "-"]
+            elif result.startswith("-"):
+                r = ["neg", "n", "0", result[1:]]
+            else:
+                r = ["n", "0", result]
+            lines.append("P docex%d blk 1 arr 2 %s %s" % (n, " ".join(ast), " ".join(r)))
+        g = self.work("docex_generated.ops")
+        with open(g, "w") as fh:
+            fh.write("\n".join(lines) + "\n")
+        return g
+
     def correspondence(self, tier, seed, harness, driver):
         res = runner.Result()
         outs = []
+        gen_ops = self._doc_examples(harness)
+        save = self.work("docex_generated.out")
+        outs.append((save, self._run([harness, "ops", gen_ops], driver, save)))
         cdir = os.path.join(core.ROOT, "corpus", "C15")
         for f in sorted(os.listdir(cdir)) if os.path.isdir(cdir) else []:
             if f.endswith(".ops"):
@@ -396,10 +443,6 @@ class C15(Check):
     # ------------------------------------------------------------------ known findings (narrow classifiers over the minimised witness)
     def matches_known(self, entry, finding):
         d = finding.classifier_data or {}
-        if finding.kind == "spec" and entry.get("classifier") == "c15_doc_example_bitwise_not":
-            # exactly: the documented-example clause on the program `[~true, false ]`
-            return "clause=reference_example_as_documented" in d.get("driver", "") and \
-                re.fullmatch(r"\[\s*~\s*true\s*,\s*false\s*\]", d.get("text", "").strip()) is not None
         if finding.kind == "spec" and entry.get("classifier") == "c15_join_non_string_scalars":
             # exactly: the join clause, on a program that joins an array literal containing a Boolean
             return "clause=array_join_total_on_scalars" in d.get("driver", "") and \
